@@ -125,6 +125,19 @@ Theorem C11_text_split_run : forall t t' l l',
 Proof. exact C11RunSplit.C11_text_split_run. Qed.
 Print Assumptions C11_text_split_run.
 
+(* ... and the first statement has the same TYPE (get_type), composed with the barrier theorem of C18: the leading DML/DDL
+   keyword, preceded by white space only, may be a compound keyword spelled with any runs (CREATE<run>OR<run>REPLACE) *)
+Theorem C11_text_get_type_run : forall t t' pre ty kw rest,
+  sq RSp false t = sq RSp false t' -> C11RunAll.oktextb t = true -> C11RunAll.oktextb t' = true ->
+  cur_lex t = Ok (pre ++ (ty, kw) :: rest) -> forallb ws_tok pre = true -> ws_tok (ty, kw) = false ->
+  BarrierDefs.barrier_guard pre ty kw rest = true ->
+  forall l', cur_lex t' = Ok l' ->
+  (forall pre' kw' rest', l' = pre' ++ (ty, kw') :: rest' -> BarrierDefs.barrier_guard pre' ty kw' rest' = true) ->
+  exists s ss s' ss', cur_parse t = Ok (s :: ss) /\ cur_parse t' = Ok (s' :: ss')
+                      /\ Accessors.get_type s = Accessors.get_type s'.
+Proof. exact C11RunSplit.C11_text_get_type_run. Qed.
+Print Assumptions C11_text_get_type_run.
+
 (* the generic statement: any rule table that meets table_ok *)
 Theorem C11_lex_all_generic : forall lower upper rules kws S oktext, table_ok lower rules kws S oktext ->
   forall n t t' p p' l l', length t <= n ->
